@@ -1,5 +1,7 @@
 // C17 correspondence harness: pkg/tools/lcp.go (GenLCPPolicyV2, binary.Write of
-// LCPPolicy/LCPPolicy2, ParsePolicy, the flag-word decoders) against Model/LCP.v.
+// LCPPolicy/LCPPolicy2, ParsePolicy, the flag-word decoders) against Model/LCP.v, and
+// cmd/core/txt-prov (loadConfig, writePSPolicy2file; config.go in this directory) against
+// Model/LCPConfig.v.
 //
 // The oracle below is written from the property text and the Intel TXT SDG
 // (315168) tables, not from the model: it has its own offset table of the two
@@ -25,7 +27,7 @@ import (
 	"verifharness/gal"
 )
 
-const header = "From CSS Require Import Lib.Base Lib.Cases Model.LCP Model.LCPCases."
+const header = "From CSS Require Import Lib.Base Lib.Cases Model.LCP Model.LCPConfig Model.LCPCases."
 
 const (
 	siteGen    = "pkg/tools/lcp.go:GenLCPPolicyV2/genLCPHash"
@@ -797,7 +799,7 @@ func flagWords(c *gal.Ctx, wpc uint32, wah uint16, was uint32) {
 // ---------------------------------------------------------------- main
 
 func main() {
-	c := gal.New("C17", header, 560)
+	c := gal.New("C17", header, 620)
 	logrus.SetLevel(logrus.ErrorLevel)
 	offered := []crypto.Hash{crypto.SHA1, crypto.SHA256, crypto.SHA384}
 
@@ -956,6 +958,9 @@ func main() {
 		flagWords(c, c.Rng.Uint32(), uint16(c.Rng.Intn(0x10000)), c.Rng.Uint32())
 	}
 
+	// ---- 6. the policy txt-prov generates from its JSON config (loadConfig in the real txt-prov binary)
+	configCases(c)
+
 	// ---- probes of the listed findings (fixed witnesses)
 	{
 		d := make([]byte, 48)
@@ -979,6 +984,9 @@ func main() {
 	c.Finish("all 2^15 flag combinations through GenLCPPolicyV2 + Parse* (oracle on all, a Coq case for every 37th and every single-flag one); " +
 		"GenLCPPolicyV2 over {SHA1,SHA256,SHA384} x versions {0x300,0x302,0x304,0x306,boundaries,random} x random digests (matching and non-matching length) x random flags, " +
 		"each generated policy written with binary.Write and parsed back; random well-formed LCPPolicy/LCPPolicy2 structs written and parsed back; " +
-		"random well-formed 54-/70-byte strings parsed and re-serialised; every truncation length 0..110; malformed strings; raw flag words. " +
+		"random well-formed 54-/70-byte strings parsed and re-serialised; every truncation length 0..110; malformed strings; raw flag words; " +
+		"txt-prov loadConfig in the real binary: every flag set the config can name (documented order, reversed, shuffled), all versions x hash algorithms, " +
+		"hex spellings, documented version forms, the shipped lcp.json, configs with one key outside the documentation, each generated policy through " +
+		"writePSPolicy2file, WritePSIndexTPM20 and ParsePolicy. " +
 		"non-trivial = the call returned a policy (gen), any serialisation case, parse input of >= 38 bytes; distinct = distinct Gallina literal")
 }
